@@ -788,6 +788,44 @@ func (t *trans) forLoop(key string, idx int, leanName string, varTypes map[strin
 		strings.Join(mparams, ", "), state(), iv, strings.Join(mparams, ", "), iv, boundS, bodyS, state())
 }
 
+// exprFn translates one expression of a function (a loop or branch condition, the right-hand side of an
+// assignment) as a function of its free variables
+func (t *trans) exprFn(leanName string, what string, e ast.Expr, varTypes map[string]gty, want gty) string {
+	if e == nil {
+		panic("translate: " + what + " not found")
+	}
+	t.recv = ""
+	t.fields = map[string]gty{}
+	t.env = map[string]gty{}
+	for k, v := range varTypes {
+		t.env[k] = v
+	}
+	free := map[string]bool{}
+	ast.Inspect(e, func(nd ast.Node) bool {
+		if id, ok := nd.(*ast.Ident); ok {
+			if _, isVar := varTypes[id.Name]; isVar {
+				free[id.Name] = true
+			}
+		}
+		return true
+	})
+	var fv []string
+	for v := range free {
+		fv = append(fv, v)
+	}
+	sort.Strings(fv)
+	body, ty := t.expr(e, want)
+	if ty != want {
+		panic(fmt.Sprintf("translate: %s has type %s, want %s", what, ty, want))
+	}
+	var params []string
+	for _, v := range fv {
+		params = append(params, fmt.Sprintf("(%s : %s)", v, leanTy(varTypes[v])))
+	}
+	return fmt.Sprintf("/-- %s (%s): `%s` as a function of %s -/\ndef %s %s : %s :=\n  %s\n",
+		what, t.p.fset.Position(e.Pos()), exprText(t.p.fset, e), strings.Join(fv, ", "), leanName, strings.Join(params, " "), leanTy(want), body)
+}
+
 func emitTranslated(p *pkgInfo) (out string, err error) {
 	defer func() {
 		if r := recover(); r != nil {
@@ -826,6 +864,34 @@ func emitTranslated(p *pkgInfo) (out string, err error) {
 	b.WriteString("\n")
 	vt["maxR"], vt["r"], vt["sf"] = "i64", "u64", "u64"
 	b.WriteString(t.forLoop("genUfloatRange", 0, "ufloatClearLoop", vt))
+	b.WriteString("\n")
+	// engine.go: the conditions that decide how many test cases run and whether Check passes
+	var loopCond, passCond, seedRhs ast.Expr
+	if d := p.funcs["findBug"]; d != nil {
+		ast.Inspect(d.Body, func(n ast.Node) bool {
+			if f, ok := n.(*ast.ForStmt); ok && f.Cond != nil && loopCond == nil {
+				loopCond = f.Cond
+			}
+			if a, ok := n.(*ast.AssignStmt); ok && len(a.Lhs) == 1 && exprText(p.fset, a.Lhs[0]) == "seed" && a.Tok == token.ADD_ASSIGN {
+				seedRhs = &ast.BinaryExpr{X: a.Lhs[0], Op: token.ADD, Y: a.Rhs[0]}
+			}
+			return true
+		})
+	}
+	if d := p.funcs["checkTB"]; d != nil {
+		ast.Inspect(d.Body, func(n ast.Node) bool {
+			if f, ok := n.(*ast.IfStmt); ok && strings.Contains(exprText(p.fset, f.Cond), "valid ==") && passCond == nil {
+				passCond = f.Cond
+			}
+			return true
+		})
+	}
+	et := map[string]gty{"valid": "i64", "invalid": "i64", "checks": "i64", "earlyExit": "bool", "seed": "u64", "iter": "i64"}
+	b.WriteString(t.exprFn("findBugLoopCond", "loop condition of findBug", loopCond, et, "bool"))
+	b.WriteString("\n")
+	b.WriteString(t.exprFn("checkTBPassCond", "pass condition of checkTB", passCond, et, "bool"))
+	b.WriteString("\n")
+	b.WriteString(t.exprFn("findBugSeedStep", "seed of the next test case in findBug", seedRhs, et, "u64"))
 	b.WriteString("\nend Rapid.Translated\n")
 	return b.String(), nil
 }
